@@ -52,8 +52,13 @@ impl SubTraceLoreCtorQueue {
         self.back_traversal_pos += 1;
     }
 
-    pub(super) fn traverse_back(&mut self) {
+    /// Returns false if there is no earlier iteration to go back to.
+    pub(super) fn traverse_back(&mut self) -> bool {
+        if self.back_traversal_pos <= 1 {
+            return false;
+        }
         self.back_traversal_pos -= 1;
+        true
     }
 
     pub(super) fn start_back_traverse(&mut self) {
